@@ -11,7 +11,7 @@
    Proofs/StarkShape.v: `exemptions_bound_no_underflow`, `comp_cols_no_underflow`).
 
    PART 2 (algebraic level, over `FOps F`): polynomials are coefficient lists (lowest degree first) with
-   semantics `peval`; commitments / openings / FRI / interpolation over the constraint evaluation coset are
+   semantics `peval`; commitments / batch openings / FRI / interpolation over the constraint evaluation coset are
    Section variables (their completeness properties are NAMED hypotheses of the capstone theorem in
    Proofs/StarkComplete.v); the outputs of the public coin are a record `Coin` (prover and verifier each get
    one; that they agree is the transcript hypothesis).  The prover's `assert`s are explicit `Panic`s:
@@ -268,10 +268,14 @@ Fixpoint ood_lhs (n : nat) (z : F) (i : nat) (hz : list F) : F :=
   match hz with [] => zero | h :: t => fpow z (i * n) *f h +f ood_lhs n z (S i) t end.
 
 (* ---------------------------------------------------------------- abstract stages *)
-Variable Digest FriProof : Type.
+Variable Digest Opening FriProof : Type.
 Variable commit : list (list F) -> Digest.                          (* Merkle root of the LDE of a list of columns *)
-Variable open_ok : Digest -> F -> list F -> bool.                   (* opening of a row at x verifies against a root *)
-Variable fri_prove : list F -> FriProof.                            (* build_layers + build_proof for a polynomial *)
+(* prover: TraceLde::query / ConstraintCommitment::query — one batch Merkle proof for all queried points *)
+Variable open_prove : list (list F) -> list F -> Opening.
+(* verifier: read_queried_trace_states / read_constraint_evaluations — hash the opened rows into leaves and
+   MerkleTree::verify_batch them against the root at the queried points *)
+Variable open_ok : Digest -> list F -> list (list F) -> Opening -> bool.
+Variable fri_prove : list F -> list F -> FriProof.                  (* build_layers(evaluations of the polynomial) + build_proof(query points) *)
 Variable fri_verify : FriProof -> nat -> list F -> list F -> bool.  (* verify(max degree, xs, evaluations) *)
 (* the AIR: combined, divided constraint evaluation at x from an (OOD or in-domain) frame — what
    verifier/src/evaluator.rs evaluate_constraints returns for fixed composition coefficients *)
@@ -291,6 +295,7 @@ Record Proof : Type := mkProof {
   pf_trace_root : Digest; pf_comp_root : Digest;
   pf_cur : list F; pf_nxt : list F; pf_hz : list F;
   pf_trows : list (list F); pf_hrows : list (list F);
+  pf_topen : Opening; pf_hopen : Opening;
   pf_fri : FriProof
 }.
 
@@ -312,15 +317,10 @@ Definition prove (P : Params) (c : Coin) (Ts : list (list F)) : Outcome Proof :=
         let d := deep_constraints z (c_delta c) Hs hz d0 in
         if negb (deep_assert (p_strict P) n d) then Panic P_DEEP_DEGREE
         else Done (mkProof (commit Ts) (commit Hs) cur nxt hz
-                           (map (evals Ts) (c_xs c)) (map (evals Hs) (c_xs c)) (fri_prove d))
+                           (map (evals Ts) (c_xs c)) (map (evals Hs) (c_xs c))
+                           (open_prove Ts (c_xs c)) (open_prove Hs (c_xs c)) (fri_prove d (c_xs c)))
       end.
 
-Fixpoint zip3_all {A B C} (f : A -> B -> C -> bool) (a : list A) (b : list B) (c : list C) : bool :=
-  match a, b, c with
-  | x :: a', y :: b', w :: c' => f x y w && zip3_all f a' b' c'
-  | [], [], [] => true
-  | _, _, _ => false
-  end.
 Fixpoint map3 {A B C D} (f : A -> B -> C -> D) (a : list A) (b : list B) (c : list C) : list D :=
   match a, b, c with x :: a', y :: b', w :: c' => f x y w :: map3 f a' b' c' | _, _, _ => [] end.
 
@@ -328,10 +328,8 @@ Fixpoint map3 {A B C D} (f : A -> B -> C -> D) (a : list A) (b : list B) (c : li
 Definition verify (P : Params) (c : Coin) (pf : Proof) : option VerifierError :=
   let n := p_n P in let g := p_g P in let z := c_z c in
   if negb (air_eval z (pf_cur pf) (pf_nxt pf) =f? ood_lhs n z 0 (pf_hz pf)) then Some InconsistentOodConstraintEvaluations
-  else if negb (zip3_all (fun x r (_ : unit) => open_ok (pf_trace_root pf) x r) (c_xs c) (pf_trows pf) (map (fun _ => tt) (c_xs c)))
-       then Some TraceQueryDoesNotMatchCommitment
-  else if negb (zip3_all (fun x r (_ : unit) => open_ok (pf_comp_root pf) x r) (c_xs c) (pf_hrows pf) (map (fun _ => tt) (c_xs c)))
-       then Some ConstraintQueryDoesNotMatchCommitment
+  else if negb (open_ok (pf_trace_root pf) (c_xs c) (pf_trows pf) (pf_topen pf)) then Some TraceQueryDoesNotMatchCommitment
+  else if negb (open_ok (pf_comp_root pf) (c_xs c) (pf_hrows pf) (pf_hopen pf)) then Some ConstraintQueryDoesNotMatchCommitment
   else
     let deep := map3 (fun x tr hr => v_deep g c x tr hr (pf_cur pf) (pf_nxt pf) (pf_hz pf)) (c_xs c) (pf_trows pf) (pf_hrows pf) in
     if fri_verify (pf_fri pf) (n - 2) (c_xs c) deep then None else Some FriVerificationFailed.
